@@ -1,2 +1,254 @@
-From Coq Require Import ZArith QArith List Bool Arith Lia.
+(* Property C12, id/time conversion half (slice tmap): "Converting sample id to time
+   reproduces every stored pair exactly, is non-decreasing, interpolates linearly between
+   neighbouring pairs and extrapolates from the nearest segment (or from the sample rate when
+   only one pair exists) to within one time tick of the exact value, and converting that
+   time back returns the original sample id to within one sample."
+
+   All theorems are about coq/TmapModel.v, the model of /repo/src/tmap.c (jls_tmap_alloc,
+   jls_tmap_add, interp_i64, jls_tmap_sample_id_to_timestamp, jls_tmap_timestamp_to_sample_id),
+   for every number of entries >= 1, every strictly increasing id sequence with
+   non-decreasing times and every query.  Statements are written out with the model's
+   functions only; `x` = ids t = sample ids, `y` = times t = UTC ticks (2^30 per second),
+   `junk` = content of the uninitialised cell x[length] the bisection may read,
+   `phys t` = number of 8-byte cells of the heap object.
+   Arithmetic is exact (Q); the distance between binary64 and exact evaluation is the
+   PARTIAL part: C12_tmap_binary64_within_one_partial. *)
+From Coq Require Import ZArith QArith Qabs List Bool Arith.
 From JLS Require Import Generated TmapModel TmapProofs.
+Import ListNotations.
+Local Open Scope Z_scope.
+
+(* ---- the bisection: result independent of the junk cell, no over-read below capacity ---- *)
+Theorem C12_tmap_search_junk_independent : forall (junk junk' : Z) (ph : nat) (xs : list Z) (x0 : Z),
+  (length xs < ph)%nat -> search junk ph xs x0 = search junk' ph xs x0.
+Proof. exact search_junk_independent_lemma. Qed.
+Print Assumptions C12_tmap_search_junk_independent.
+
+Theorem C12_tmap_junk_independent : forall (junk junk' : Z) (t : tmap) (q : Z),
+  (length (entries t) < phys t)%nat ->
+  tmap_sample_id_to_timestamp junk t q = tmap_sample_id_to_timestamp junk' t q /\
+  tmap_timestamp_to_sample_id junk t q = tmap_timestamp_to_sample_id junk' t q.
+Proof. exact tmap_junk_independent. Qed.
+Print Assumptions C12_tmap_junk_independent.
+
+Theorem C12_tmap_search_no_oob : forall (junk : Z) (ph : nat) (xs : list Z) (x0 : Z),
+  (length xs < ph)%nat ->
+  exists c, search junk ph xs x0 = Ok c /\ (c <= length xs)%nat /\ (2 <= length xs -> c + 2 <= length xs)%nat.
+Proof. exact search_no_oob_lemma. Qed.
+Print Assumptions C12_tmap_search_no_oob.
+
+Theorem C12_tmap_no_oob : forall (junk : Z) (t : tmap) (q : Z),
+  (length (entries t) < phys t)%nat ->
+  tmap_sample_id_to_timestamp junk t q <> QFault OOB_read /\
+  tmap_timestamp_to_sample_id junk t q <> QFault OOB_read.
+Proof. exact tmap_no_oob. Qed.
+Print Assumptions C12_tmap_no_oob.
+
+(* ---- the defect: with length = allocated cells the bisection reads x[length] outside the heap
+   object for every query beyond the last anchor, and only then ---- *)
+Theorem C12_tmap_oob_iff : forall (junk : Z) (t : tmap) (q : Z),
+  (forall i k, (i < k < length (ids t))%nat -> nth i (ids t) 0 < nth k (ids t) 0) ->
+  (2 <= length (entries t))%nat -> (phys t <= length (entries t))%nat ->
+  (tmap_sample_id_to_timestamp junk t q = QFault OOB_read <-> nth (length (entries t) - 1) (ids t) 0 < q).
+Proof. exact tmap_oob_iff. Qed.
+Print Assumptions C12_tmap_oob_iff.
+
+(* every map produced by jls_tmap_alloc and any sequence of jls_tmap_add (valid, duplicate or
+   rejected adds): ids strictly increasing; length <= physical cells, with equality exactly when
+   the map holds ENTRIES_ALLOC_INIT = 1000 entries and has not grown *)
+Theorem C12_tmap_reachable : forall (r : Q) (l : list (Z * Z)),
+  let t := tmap_add_all (tmap_alloc r) l in
+  (forall i k, (i < k < length (ids t))%nat -> nth i (ids t) 0 < nth k (ids t) 0) /\
+  (length (entries t) <= phys t)%nat /\
+  (length (entries t) = phys t <->
+   length (entries t) = N.to_nat TMAP_ENTRIES_ALLOC_INIT /\ alloc t = N.to_nat TMAP_ENTRIES_ALLOC_INIT).
+Proof. exact tmap_reachable. Qed.
+Print Assumptions C12_tmap_reachable.
+
+Theorem C12_tmap_oob_refuted :
+  exists (t : tmap) (q : Z),
+    t = tmap_add_all (tmap_alloc (1000 # 1))
+          (map (fun i => (Z.of_nat i * 1000, 2 ^ 58 + Z.of_nat i * 2 ^ 30)) (seq 0 (N.to_nat TMAP_ENTRIES_ALLOC_INIT))) /\
+    (forall i k, (i < k < length (ids t))%nat -> nth i (ids t) 0 < nth k (ids t) 0) /\
+    (forall i k, (i < k < length (times t))%nat -> nth i (times t) 0 < nth k (times t) 0) /\
+    length (entries t) = N.to_nat TMAP_ENTRIES_ALLOC_INIT /\
+    forall junk, tmap_sample_id_to_timestamp junk t q = QFault OOB_read /\
+                 tmap_timestamp_to_sample_id junk t (2 ^ 58 + 1000 * 2 ^ 30) = QFault OOB_read.
+Proof. exact tmap_oob_refuted. Qed.
+Print Assumptions C12_tmap_oob_refuted.
+
+(* ---- the minimal repair (bisection starts at high = length - 1; zero-width segment returns
+   y[low]) returns exactly what the present code returns wherever the present code is defined,
+   and never reads x[length]: all theorems below transfer to the repaired code ---- *)
+Theorem C12_tmap_fixed_eq : forall (junk : Z) (t : tmap) (q : Z),
+  (forall i k, (i < k < length (ids t))%nat -> nth i (ids t) 0 < nth k (ids t) 0) ->
+  (length (entries t) < phys t)%nat ->
+  tmap_sample_id_to_timestamp_fixed t q = tmap_sample_id_to_timestamp junk t q /\
+  ((forall i k, (i < k < length (times t))%nat -> nth i (times t) 0 < nth k (times t) 0) ->
+   tmap_timestamp_to_sample_id_fixed t q = tmap_timestamp_to_sample_id junk t q).
+Proof. exact tmap_fixed_eq. Qed.
+Print Assumptions C12_tmap_fixed_eq.
+
+Theorem C12_tmap_fixed_no_oob : forall (junk : Z) (t : tmap) (q : Z),
+  (forall i k, (i < k < length (ids t))%nat -> nth i (ids t) 0 < nth k (ids t) 0) ->
+  tmap_sample_id_to_timestamp_fixed t q = tmap_sample_id_to_timestamp junk (tmap_unchecked t) q /\
+  tmap_sample_id_to_timestamp_fixed t q <> QFault OOB_read.
+Proof. exact tmap_fixed_eq_unchecked. Qed.
+Print Assumptions C12_tmap_fixed_no_oob.
+
+(* ---- every stored pair is reproduced exactly, both directions ---- *)
+Theorem C12_tmap_anchor_exact : forall (junk : Z) (t : tmap) (s u : Z),
+  (forall i k, (i < k < length (ids t))%nat -> nth i (ids t) 0 < nth k (ids t) 0) ->
+  (forall i k, (i <= k < length (times t))%nat -> nth i (times t) 0 <= nth k (times t) 0) ->
+  (length (entries t) < phys t)%nat ->
+  Forall (fun v => - (2 ^ 62 - 1) <= v <= 2 ^ 62 - 1) (ids t) ->
+  Forall (fun v => - (2 ^ 62 - 1) <= v <= 2 ^ 62 - 1) (times t) ->
+  (0 < rate t)%Q ->
+  In (s, u) (entries t) ->
+  tmap_sample_id_to_timestamp junk t s = QVal u /\
+  ((forall i k, (i < k < length (times t))%nat -> nth i (times t) 0 < nth k (times t) 0) ->
+   tmap_timestamp_to_sample_id junk t u = QVal s).
+Proof. exact tmap_anchor_exact. Qed.
+Print Assumptions C12_tmap_anchor_exact.
+
+(* ---- non-decreasing in the query ---- *)
+Theorem C12_tmap_monotone : forall (junk : Z) (t : tmap) (q1 q2 v1 v2 : Z),
+  (forall i k, (i < k < length (ids t))%nat -> nth i (ids t) 0 < nth k (ids t) 0) ->
+  (forall i k, (i <= k < length (times t))%nat -> nth i (times t) 0 <= nth k (times t) 0) ->
+  (length (entries t) < phys t)%nat ->
+  tmap_sample_id_to_timestamp junk t q1 = QVal v1 -> tmap_sample_id_to_timestamp junk t q2 = QVal v2 ->
+  q1 <= q2 -> v1 <= v2.
+Proof. exact tmap_monotone. Qed.
+Print Assumptions C12_tmap_monotone.
+
+Theorem C12_tmap_monotone_time_to_id : forall (junk : Z) (t : tmap) (q1 q2 v1 v2 : Z),
+  (forall i k, (i < k < length (ids t))%nat -> nth i (ids t) 0 < nth k (ids t) 0) ->
+  (forall i k, (i < k < length (times t))%nat -> nth i (times t) 0 < nth k (times t) 0) ->
+  (length (entries t) < phys t)%nat ->
+  tmap_timestamp_to_sample_id junk t q1 = QVal v1 -> tmap_timestamp_to_sample_id junk t q2 = QVal v2 ->
+  q1 <= q2 -> v1 <= v2.
+Proof. exact tmap_monotone_rev. Qed.
+Print Assumptions C12_tmap_monotone_time_to_id.
+
+(* ---- between neighbouring pairs: the rounded linear interpolation, within 1/2 tick of the
+   exact rational value, never outside the two anchor times; no fault ---- *)
+Theorem C12_tmap_interp_linear : forall (junk : Z) (t : tmap) (i : nat) (q : Z),
+  (forall i k, (i < k < length (ids t))%nat -> nth i (ids t) 0 < nth k (ids t) 0) ->
+  (forall i k, (i <= k < length (times t))%nat -> nth i (times t) 0 <= nth k (times t) 0) ->
+  (length (entries t) < phys t)%nat ->
+  Forall (fun v => - (2 ^ 62 - 1) <= v <= 2 ^ 62 - 1) (ids t) ->
+  Forall (fun v => - (2 ^ 62 - 1) <= v <= 2 ^ 62 - 1) (times t) ->
+  (i + 1 < length (entries t))%nat -> nth i (ids t) 0 <= q <= nth (S i) (ids t) 0 ->
+  exists v, tmap_sample_id_to_timestamp junk t q = QVal v /\
+    v = nth i (times t) 0 + Qround_haz (inject_Z (q - nth i (ids t) 0%Z) * (inject_Z (nth (S i) (times t) 0%Z - nth i (times t) 0%Z) / inject_Z (nth (S i) (ids t) 0%Z - nth i (ids t) 0%Z)))%Q /\
+    (Qabs (inject_Z v - (inject_Z (nth i (times t) 0%Z) + inject_Z (q - nth i (ids t) 0%Z) * (inject_Z (nth (S i) (times t) 0%Z - nth i (times t) 0%Z) / inject_Z (nth (S i) (ids t) 0%Z - nth i (ids t) 0%Z)))) <= 1 # 2)%Q /\
+    nth i (times t) 0 <= v <= nth (S i) (times t) 0.
+Proof. exact tmap_interp_linear. Qed.
+Print Assumptions C12_tmap_interp_linear.
+
+(* ---- before the first / at or after the last anchor: the first / last segment is used ---- *)
+Theorem C12_tmap_extrap_nearest_segment : forall (junk : Z) (t : tmap) (q v : Z),
+  (forall i k, (i < k < length (ids t))%nat -> nth i (ids t) 0 < nth k (ids t) 0) ->
+  (length (entries t) < phys t)%nat -> (2 <= length (entries t))%nat ->
+  tmap_sample_id_to_timestamp junk t q = QVal v ->
+  (q < nth 0 (ids t) 0 ->
+     v = nth 0 (times t) 0 + Qround_haz (inject_Z (q - nth 0 (ids t) 0%Z) * (inject_Z (nth 1 (times t) 0%Z - nth 0 (times t) 0%Z) / inject_Z (nth 1 (ids t) 0%Z - nth 0 (ids t) 0%Z)))%Q) /\
+  (nth (length (entries t) - 1) (ids t) 0 <= q ->
+     let c := (length (entries t) - 2)%nat in
+     v = nth c (times t) 0 + Qround_haz (inject_Z (q - nth c (ids t) 0%Z) * (inject_Z (nth (S c) (times t) 0%Z - nth c (times t) 0%Z) / inject_Z (nth (S c) (ids t) 0%Z - nth c (ids t) 0%Z)))%Q).
+Proof. exact tmap_extrap_nearest_segment. Qed.
+Print Assumptions C12_tmap_extrap_nearest_segment.
+
+(* ---- every query, every map: either the single-entry rule (sample rate, truncation, less
+   than one tick from the exact value) or the segment c the bisection selects
+   (x[c] <= q unless c is the first segment, q < x[c+1] unless c is the last) and at most
+   1/2 tick from the exact value on that segment ---- *)
+Theorem C12_tmap_within_one_tick : forall (junk : Z) (t : tmap) (q v : Z),
+  (forall i k, (i < k < length (ids t))%nat -> nth i (ids t) 0 < nth k (ids t) 0) ->
+  (length (entries t) < phys t)%nat ->
+  tmap_sample_id_to_timestamp junk t q = QVal v ->
+  (exists s0 u0, entries t = [(s0, u0)] /\ (0 < rate t)%Q /\
+     v = u0 + Qtrunc ((inject_Z (q - s0) / rate t) * inject_Z (2 ^ 30))%Q /\
+     (Qabs (inject_Z v - (inject_Z u0 + (inject_Z (q - s0) / rate t) * inject_Z (2 ^ 30))) < 1)%Q) \/
+  (exists c,
+     ((c + 2 <= length (ids t))%nat /\
+      (forall i, (0 < i <= c)%nat -> nth i (ids t) 0 <= q) /\
+      (forall i, (c < i)%nat -> (i + 1 < length (ids t))%nat -> q < nth i (ids t) 0)) /\
+     v = nth c (times t) 0 + Qround_haz (inject_Z (q - nth c (ids t) 0%Z) * (inject_Z (nth (S c) (times t) 0%Z - nth c (times t) 0%Z) / inject_Z (nth (S c) (ids t) 0%Z - nth c (ids t) 0%Z)))%Q /\
+     (Qabs (inject_Z v - (inject_Z (nth c (times t) 0%Z) + inject_Z (q - nth c (ids t) 0%Z) * (inject_Z (nth (S c) (times t) 0%Z - nth c (times t) 0%Z) / inject_Z (nth (S c) (ids t) 0%Z - nth c (ids t) 0%Z)))) <= 1 # 2)%Q).
+Proof. exact tmap_within_one_tick. Qed.
+Print Assumptions C12_tmap_within_one_tick.
+
+(* ---- time -> id of (id -> time) is within one sample, when every segment has at least one
+   tick per sample and the sample rate is at most 2^30 Hz (used by the single-entry rule) ---- *)
+Theorem C12_tmap_inverse_within_one_sample : forall (junk junk' : Z) (t : tmap) (q tm q' : Z),
+  (forall i k, (i < k < length (ids t))%nat -> nth i (ids t) 0 < nth k (ids t) 0) ->
+  (length (entries t) < phys t)%nat ->
+  (forall i, (i + 1 < length (entries t))%nat ->
+     nth (S i) (ids t) 0 - nth i (ids t) 0 <= nth (S i) (times t) 0 - nth i (times t) 0) ->
+  (rate t <= inject_Z (2 ^ 30))%Q ->
+  tmap_sample_id_to_timestamp junk t q = QVal tm ->
+  tmap_timestamp_to_sample_id junk' t tm = QVal q' ->
+  -1 <= q' - q <= 1.
+Proof. exact tmap_inverse_within_one_sample. Qed.
+Print Assumptions C12_tmap_inverse_within_one_sample.
+
+(* ---- second defect class: non-decreasing but equal consecutive times make time -> id divide by
+   zero in double and cast NaN to int64 (undefined behaviour), even at a stored anchor ---- *)
+Theorem C12_tmap_equal_times_refuted :
+  exists (t : tmap) (s u : Z),
+    (forall i k, (i < k < length (ids t))%nat -> nth i (ids t) 0 < nth k (ids t) 0) /\
+    (forall i k, (i <= k < length (times t))%nat -> nth i (times t) 0 <= nth k (times t) 0) /\
+    (length (entries t) < phys t)%nat /\
+    In (s, u) (entries t) /\
+    tmap_sample_id_to_timestamp 0 t s = QVal u /\
+    tmap_timestamp_to_sample_id 0 t u = QFault FP_invalid.
+Proof. exact tmap_equal_times_refuted. Qed.
+Print Assumptions C12_tmap_equal_times_refuted.
+
+(* ---- PARTIAL: binary64 evaluation of dk * (dt / ds).  For any rounding function fl with
+   relative error 2^-53 (the standard model of round-to-nearest binary64), the computed value
+   is less than 1 away from the exact one while |exact| < 2^51, so round() of it is within 1
+   of the model's.  Not proved: that the machine's double arithmetic is such an fl and that
+   the int64 -> double casts are exact (|dk|, |ds|, |dt| <= 2^53); measured by the
+   correspondence check instead. ---- *)
+Theorem C12_tmap_binary64_within_one_partial : forall (fl : Q -> Q),
+  (forall x : Q, (Qabs (fl x - x) <= Qabs x * (1 # 2 ^ 53))%Q) ->
+  forall dk ds dt : Z,
+  let exact := (inject_Z dk * (inject_Z dt / inject_Z ds))%Q in
+  let computed := fl (inject_Z dk * fl (inject_Z dt / inject_Z ds))%Q in
+  (Qabs exact < inject_Z (2 ^ 51))%Q ->
+  (Qabs (computed - exact) < 1)%Q /\ -1 <= Qround_haz computed - Qround_haz exact <= 1.
+Proof. exact c_binary64_within_one_partial. Qed.
+Print Assumptions C12_tmap_binary64_within_one_partial.
+
+(* ---- the hypotheses are satisfiable: a 3-entry 1 kHz map with irregular spacing and drift ---- *)
+Example C12_tmap_example_hypotheses :
+  let t := tmap_add_all (tmap_alloc (1000 # 1)) [(0, 2 ^ 58); (1000, 2 ^ 58 + 2 ^ 30); (2500, 2 ^ 58 + 5 * 2 ^ 29 + 7)] in
+  (forall i k, (i < k < length (ids t))%nat -> nth i (ids t) 0 < nth k (ids t) 0) /\
+  (forall i k, (i < k < length (times t))%nat -> nth i (times t) 0 < nth k (times t) 0) /\
+  (forall i k, (i <= k < length (times t))%nat -> nth i (times t) 0 <= nth k (times t) 0) /\
+  (length (entries t) < phys t)%nat /\
+  Forall (fun v => - (2 ^ 62 - 1) <= v <= 2 ^ 62 - 1) (ids t) /\
+  Forall (fun v => - (2 ^ 62 - 1) <= v <= 2 ^ 62 - 1) (times t) /\
+  (0 < rate t)%Q /\ (rate t <= inject_Z (2 ^ 30))%Q /\
+  (forall i, (i + 1 < length (entries t))%nat ->
+     nth (S i) (ids t) 0 - nth i (ids t) 0 <= nth (S i) (times t) 0 - nth i (times t) 0).
+Proof. exact ex_map_ok. Qed.
+Print Assumptions C12_tmap_example_hypotheses.
+
+Example C12_tmap_example_values :
+  let t := tmap_add_all (tmap_alloc (1000 # 1)) [(0, 2 ^ 58); (1000, 2 ^ 58 + 2 ^ 30); (2500, 2 ^ 58 + 5 * 2 ^ 29 + 7)] in
+  let t1 := tmap_add_all (tmap_alloc (1000 # 1)) [(5000, 2 ^ 58)] in
+  tmap_sample_id_to_timestamp 0 t 500 = QVal (2 ^ 58 + 2 ^ 29) /\
+  tmap_sample_id_to_timestamp 12345 t 1000 = QVal (2 ^ 58 + 2 ^ 30) /\
+  tmap_sample_id_to_timestamp 0 t 3000 = QVal (2 ^ 58 + 5 * 2 ^ 29 + 7 + 536870914) /\
+  tmap_timestamp_to_sample_id 0 t (2 ^ 58 + 2 ^ 29) = QVal 500 /\
+  tmap_sample_id_to_timestamp 0 t1 6000 = QVal (2 ^ 58 + 2 ^ 30).
+Proof. exact ex_map_values. Qed.
+Print Assumptions C12_tmap_example_values.
+
+Example C12_tmap_binary64_hypothesis_satisfiable :
+  forall x : Q, (Qabs ((fun y => y) x - x) <= Qabs x * (1 # 2 ^ 53))%Q.
+Proof. exact c_binary64_hypothesis_satisfiable. Qed.
+Print Assumptions C12_tmap_binary64_hypothesis_satisfiable.
